@@ -7,7 +7,7 @@
 (*                                                                                                  *)
 (* Events (records, field e):                                                                       *)
 (*  user/environment: call(op, cr) connok(c) connrefuse connhang deliver(c, m, k, gen, live)        *)
-(*                    lost(c, m) timer cancel peerclose(c) jumpauth jumplife                         *)
+(*                    lost(c, m) timer cancel peerclose(c) jumpauth jumphalf jumplife                         *)
 (*  client:           close(c) connreq tx(c, t, ctr, tok, k, wf, reply) ret(op, r, n, stored)        *)
 (*  tx.t in {"HS","DATA","JUNK"}; tx.k = id of the device-issued key that decrypts a DATA packet     *)
 (*  (0 = none), for HS the id of the key the device derived for it (0 = token rejected);            *)
@@ -31,6 +31,7 @@ ConnInit == [open |-> FALSE, cclosed |-> FALSE, pclosed |-> FALSE,
              stray |-> 0,         \* messages delivered that nobody was waiting for (they sit in the client's queue)
              straybad |-> 0,      \* ... those of them that are not valid data packets under the key the client holds
              authvalid |-> FALSE, \* a genuine handshake reply was accepted and the 12 h lifetime has not elapsed since
+             half |-> FALSE,      \* half of that lifetime has elapsed since the accepted handshake
              hsfail |-> 0]        \* handshake requests written while ~authvalid (not yet genuinely answered)
 
 MonInit == [ call |-> NoCall,
@@ -43,6 +44,7 @@ MonInit == [ call |-> NoCall,
              mustNew |-> 0,        \* after the lifetime jump: next packet must be a handshake on a connection newer than this
              prevFailed |-> FALSE,
              hadGood |-> FALSE,    \* valid credentials were stored at some point (a failed exchange must not lose them: C08 recovery)
+             devfault |-> FALSE,   \* a connect attempt failed during the running device-level operation
              bad |-> {} ]
 
 Flag(m, name) == [m EXCEPT !.bad = @ \cup {name}]
@@ -64,6 +66,7 @@ OnCall(m, e) ==
   [ FlagIf(m, m.call.op # "none", <<"harness", "call while another call is active">>)
     EXCEPT !.call = [op |-> e.op, cr |-> e.cr, tx |-> 0, hs |-> 0, resp |-> FALSE, txAfterResp |-> FALSE,
                      benign |-> quiet, awaiting |-> FALSE, genuine |-> FALSE, everConnected |-> m.cur # 0, cancelled |-> FALSE,
+                     connfail |-> FALSE,    \* a connect attempt of this call was refused / timed out
                      lastk |-> 0,           \* key id under which the last data packet of this call was written
                      silent |-> TRUE,       \* nothing but silence from the network so far: no delivery, loss, close, refusal or cancellation
                      canSucceed |-> Ver = 2 \/ (e.op = "send" /\ (m.stored = "good" \/ m.hadGood))
@@ -75,7 +78,7 @@ OnConnOK(m, e) ==
              !.bad = IF e.c # Len(m.conns) + 1 THEN @ \cup {<<"harness", "connection ids are not consecutive">>} ELSE @,
              !.call = IF m.call.op = "none" THEN @ ELSE [@ EXCEPT !.everConnected = TRUE] ]
 
-OnConnFail(m, e) == IF m.call.op = "none" THEN m ELSE [m EXCEPT !.call.benign = FALSE, !.call.silent = FALSE]
+OnConnFail(m, e) == IF m.call.op = "none" THEN m ELSE [m EXCEPT !.call.benign = FALSE, !.call.silent = FALSE, !.call.connfail = TRUE, !.devfault = TRUE]
 
 OnClose(m, e) ==
   LET m1 == [m EXCEPT !.conns[e.c].cclosed = TRUE, !.cur = IF m.cur = e.c THEN 0 ELSE m.cur] IN
@@ -151,6 +154,7 @@ OnDeliver(m, e) ==
                         !.stray = IF e.live /\ ~awaited THEN @ + 1 ELSE @,
                         !.straybad = IF e.live /\ ~awaited /\ ~(e.gen /\ e.m \in {"PKT", "ENC"} /\ (Ver = 2 \/ e.k = cn.answered)) THEN @ + 1 ELSE @,
                         !.authvalid = @ \/ (genHS /\ e.live /\ awaited),
+                        !.half = IF genHS /\ e.live /\ awaited THEN FALSE ELSE @,
                         !.hsfail = IF genHS /\ e.live /\ awaited THEN 0 ELSE @]
       call2 == IF m.call.op = "none" THEN m.call
                ELSE [m.call EXCEPT !.awaiting = IF awaited THEN FALSE ELSE @,
@@ -173,6 +177,10 @@ OnCancel(m, e) == IF m.call.op = "none" THEN m ELSE [m EXCEPT !.call.benign = FA
 
 OnJumpAuth(m, e) ==
   IF m.cur # 0 /\ m.conns[m.cur].hsok THEN [m EXCEPT !.mustHS = m.cur, !.conns[m.cur].authvalid = FALSE] ELSE m
+OnJumpHalf(m, e) ==     \* the key lifetime runs from the accepted handshake: the second half step since then expires it, whatever traffic there was in between
+  IF m.cur # 0 /\ m.conns[m.cur].hsok /\ m.conns[m.cur].authvalid
+  THEN (IF m.conns[m.cur].half THEN OnJumpAuth(m, e) ELSE [m EXCEPT !.conns[m.cur].half = TRUE])
+  ELSE m
 OnJumpLife(m, e) ==
   IF m.cur # 0 THEN [m EXCEPT !.mustNew = m.cur, !.mustHS = 0] ELSE m
 
@@ -205,9 +213,12 @@ OnRet(m, e) ==
       b15 == IF cl.op = "auth" /\ cl.silent /\ cl.hs > 0 /\ ~cl.cancelled
                   /\ (cl.hs # Retries \/ e.r # (IF DevLevel THEN "auth" ELSE "timeout"))
                THEN {<<"C06", "unanswered handshake did not end in a timeout after exactly `retries` handshake requests (a later genuine reply could not be accepted)">>} ELSE {}
+      (* a refused / unreachable / hanging connect is a failed exchange like any other: it is reported as a protocol error (or timeout), whatever the OS calls it *)
+      b16 == IF cl.connfail /\ ~ok /\ e.r \notin AllowedOutcomes
+               THEN {<<"C08", "a failed connect surfaced as something other than a protocol error or timeout">>} ELSE {}
       b13 == IF cl.op = "auth" /\ cl.genuine /\ cl.canSucceed /\ ~ok /\ e.r # "cancelled"
                THEN {<<"C06", "authentication failed although the device's reply proved knowledge of the key">>} ELSE {}
-  IN [ m EXCEPT !.bad = @ \cup b1 \cup b2 \cup b3 \cup b4 \cup b5 \cup b5b \cup b6 \cup b7 \cup b8 \cup b9 \cup b10 \cup b11 \cup b12 \cup b13 \cup b14 \cup b15,
+  IN [ m EXCEPT !.bad = @ \cup b1 \cup b2 \cup b3 \cup b4 \cup b5 \cup b5b \cup b6 \cup b7 \cup b8 \cup b9 \cup b10 \cup b11 \cup b12 \cup b13 \cup b14 \cup b15 \cup b16,
                 !.call = NoCall, !.stored = e.stored, !.prevFailed = ~ok,
                 !.hadGood = @ \/ e.stored = "good",
                 !.conns = [c \in 1..Len(m.conns) |-> IF c = m.cur /\ e.r = "frames" THEN [m.conns[c] EXCEPT !.stray = 0, !.straybad = 0] ELSE m.conns[c]] ]
@@ -216,15 +227,17 @@ OnRet(m, e) ==
 (* e.raised = it raised; e.online = the device's online flag; e.frames = frames its exchanges returned *)
 OnDevRet(m, e) ==
   LET b1 == IF e.raised THEN {<<"C09", "device-level operation raised instead of reporting an unresponsive device">>} ELSE {}
+      b0 == IF e.raised /\ m.devfault THEN {<<"C08", "device-level operation raised after a failed connect instead of reporting no response / offline">>} ELSE {}
       b2 == IF ~e.raised /\ e.frames = 0 /\ e.online THEN {<<"C08", "device reported online although no exchange returned a response">>} ELSE {}
       b3 == IF ~e.raised /\ e.frames > 0 /\ ~e.online THEN {<<"C08", "device reported offline although a response was returned">>} ELSE {}
-  IN [m EXCEPT !.bad = @ \cup b1 \cup b2 \cup b3]
+  IN [m EXCEPT !.bad = @ \cup b0 \cup b1 \cup b2 \cup b3, !.devfault = FALSE]
 
 MonStep(m, e) ==
   CASE e.e = "call" -> OnCall(m, e)
     [] e.e = "connok" -> OnConnOK(m, e)
     [] e.e \in {"connrefuse", "connhang"} -> OnConnFail(m, e)
-    [] e.e \in {"connreq", "devcall"} -> m
+    [] e.e = "connreq" -> m
+    [] e.e = "devcall" -> [m EXCEPT !.devfault = FALSE]
     [] e.e = "close" -> OnClose(m, e)
     [] e.e = "peerclose" -> OnPeerClose(m, e)
     [] e.e = "tx" -> OnTx(m, e)
@@ -233,6 +246,7 @@ MonStep(m, e) ==
     [] e.e = "timer" -> OnTimer(m, e)
     [] e.e = "cancel" -> [OnCancel(m, e) EXCEPT !.call = IF m.call.op = "none" THEN @ ELSE [@ EXCEPT !.cancelled = TRUE]]
     [] e.e = "jumpauth" -> OnJumpAuth(m, e)
+    [] e.e = "jumphalf" -> OnJumpHalf(m, e)
     [] e.e = "jumplife" -> OnJumpLife(m, e)
     [] e.e = "ret" -> IF m.call.op = "none" THEN Flag(m, <<"harness", "result without a call">>) ELSE OnRet(m, e)
     [] e.e = "devret" -> OnDevRet(m, e)
